@@ -224,7 +224,7 @@ def reservoir_blocks(draw, models=('4', '3'), slow_fraction=0.0, max_steps=2000)
 
 _COMPONENT_COSTS = [
     ('Reservoir Stimulation Capital Cost', 0, 60), ('Exploration Capital Cost', 0, 40),
-    ('Well Drilling and Completion Capital Cost', 0.5, 40), ('Injection Well Drilling and Completion Capital Cost', 0.5, 40),
+    ('Well Drilling and Completion Capital Cost', 0, 40), ('Injection Well Drilling and Completion Capital Cost', 0, 40),
     ('Surface Plant Capital Cost', 0, 300), ('Field Gathering System Capital Cost', 0, 40),
     ('Wellfield O&M Cost', 0, 10), ('Surface Plant O&M Cost', 0, 10), ('Water Cost', 0, 5),
 ]
@@ -242,7 +242,9 @@ def cost_layer(draw, surface_label=''):
     labels, blk = [], []
     n_fixed = 0
     for name, lo, hi in _COMPONENT_COSTS:
-        if draw(st.integers(0, 4)) == 0:
+        # the injection-well cost only has an effect beside a supplied production-well cost: pair them more often
+        paired = name.startswith('Injection Well') and any(b[0] == 'Well Drilling and Completion Capital Cost' for b in blk)
+        if draw(st.integers(0, 1 if paired else 4)) == 0:
             blk.append([name, fmt(draw(nice_floats(lo, hi)))])
             n_fixed += 1
     if n_fixed:
